@@ -1,6 +1,7 @@
 #pragma once
 
 #include "scope.h"
+#include "context.h"
 #include <optional>
 
 namespace riddle::ast
@@ -27,7 +28,7 @@ namespace ratio
     inline std::string get_name() const noexcept { return name; }                               // returns the name of this method..
     inline const std::vector<const field *> get_args() const noexcept { return args; }          // returns the list of arguments of this method..
 
-    std::optional<item *> invoke(context &ctx, const std::vector<expr> &exprs);
+    std::optional<expr> invoke(context &ctx, const std::vector<expr> &exprs); // the returned expression keeps the result alive after the invocation's environment is gone..
 
   private:
     std::optional<const type *const> return_type; // the return type of this method (can be nullptr)..
